@@ -465,6 +465,14 @@ class ActionLink(Action):
         for action in [a for a in parser._actions if isinstance(a, ActionTypeHint) and hasattr(a, "sub_add_kwargs")]:
             for key in action.sub_add_kwargs.get("linked_targets", []):
                 del_target_key(f"{action.dest}.init_args.{key}")
+                parent = cfg.get(action.dest)
+                if isinstance(parent, list):
+                    # List of classes: the linked init_args live in the items, not at a namespace path
+                    for item in parent:
+                        if isinstance(item, Namespace):
+                            item.pop(f"init_args.{key}", None)
+                            if "init_args" in item and not item["init_args"]:
+                                del item["init_args"]
 
         with _ActionSubCommands.not_single_subcommand():
             subcommands, subparsers = _ActionSubCommands.get_subcommands(parser, cfg)
